@@ -231,6 +231,13 @@ pub const VERSION_PSEUDO_HEADER: &str = ":http-version";
 /// 1 corrupt encoding, 2 overflow, 3 unknown length, 4 i/o), over a socket the chunked framing
 /// turns to garbage at that point.
 pub const BREAK_PSEUDO_HEADER: &str = ":break-after";
+/// And a third one: `(":step-clock", "<days>")` steps the process's wall clock forward by so many
+/// days while the body is in transit - after its first chunk has been delivered (in process only).
+pub const STEP_PSEUDO_HEADER: &str = ":step-clock";
+/// A fourth (sockets only): `(":also-content-length", "<n>")` sends a Content-Length header of
+/// that value *in addition to* `Transfer-Encoding: chunked` - conflicting framing, which HTTP/1.1
+/// resolves in favour of the chunked coding (RFC 9112 6.3) or refuses.
+pub const ALSO_CL_PSEUDO_HEADER: &str = ":also-content-length";
 
 /// Request headers that have nothing to do with the protocol and must not change any outcome
 /// (nor cost a response its Cache-Control): what browsers, proxies and HTTP libraries add.
@@ -283,7 +290,7 @@ pub fn build_request(r: &HttpReq) -> actix_http::Request {
             }
             continue;
         }
-        if n == BREAK_PSEUDO_HEADER {
+        if n == BREAK_PSEUDO_HEADER || n == STEP_PSEUDO_HEADER || n == ALSO_CL_PSEUDO_HEADER {
             continue;
         }
         let name = HeaderName::from_bytes(n.as_bytes()).expect("valid header name");
@@ -307,6 +314,19 @@ pub fn build_request(r: &HttpReq) -> actix_http::Request {
                 _ => PayloadError::Io(std::io::Error::new(std::io::ErrorKind::ConnectionReset, "connection reset by peer")),
             }));
             Box::pin(futures::stream::iter(items))
+        } else if let Some(days) = r.headers.iter().find(|(n, _)| n == STEP_PSEUDO_HEADER).and_then(|(_, v)| String::from_utf8_lossy(v).parse::<i64>().ok()) {
+            // first chunk, then the clock jumps (and the stall, if any, elapses), then the rest
+            Box::pin(futures::stream::unfold((chunks.into_iter(), stalls.into_iter(), 0usize, days), |(mut c, mut s, k, days)| async move {
+                let chunk = c.next()?;
+                let stall = s.next().unwrap_or(0);
+                if k == 1 {
+                    crate::clock::step(days * 86400);
+                }
+                if stall > 0 {
+                    tokio::time::sleep(std::time::Duration::from_secs(stall as u64)).await;
+                }
+                Some((Ok::<_, actix_http::error::PayloadError>(chunk), (c, s, k + 1, days)))
+            }))
         } else if stalls.iter().all(|s| *s == 0) {
             Box::pin(futures::stream::iter(chunks.into_iter().map(Ok::<_, actix_http::error::PayloadError>)))
         } else {
@@ -613,6 +633,12 @@ pub struct Driver {
     /// no conditional reads, so it must be the same answer
     pub revalidate: bool,
     pub reval_seq: u32,
+    /// the next upload's body is split in two and the wall clock is stepped forward by this many
+    /// days between the halves (consumed by that upload; in-process HTTP only)
+    pub step_during_upload: i64,
+    /// a Content-Encoding header sent with uploads (the payload is opaque: the server stores the
+    /// bytes it receives, whatever coding they are declared or happen to be in)
+    pub content_encoding: Option<&'static str>,
     /// in-process uploads arrive in two halves with this many seconds of (virtual) time between them
     pub stall_secs: u32,
     /// appended to the Content-Type of uploads (e.g. "; charset=utf-8"): parameters do not change
@@ -669,6 +695,8 @@ impl Driver {
             extra_headers: 0,
             revalidate: false,
             reval_seq: 0,
+            step_during_upload: 0,
+            content_encoding: None,
             stall_secs: 0,
             ct_params: None,
             content_length: false,
@@ -728,7 +756,16 @@ impl Driver {
     }
 
     /// a slow upload: two halves, the second after `stall_secs`
-    fn slow(&self, rq: &mut HttpReq, data: &[u8]) {
+    fn slow(&mut self, rq: &mut HttpReq, data: &[u8]) {
+        if self.step_during_upload != 0 && data.len() >= 2 && self.ext.is_none() {
+            let b = bytes::Bytes::copy_from_slice(data);
+            let mid = data.len() / 2;
+            rq.chunks = vec![b.slice(..mid), b.slice(mid..)];
+            rq.stalls = vec![0, self.stall_secs];
+            rq.headers.push((STEP_PSEUDO_HEADER.into(), self.step_during_upload.to_string().into_bytes()));
+            self.step_during_upload = 0;
+            return;
+        }
         if self.stall_secs > 0 && data.len() >= 2 && self.ext.is_none() {
             let b = bytes::Bytes::copy_from_slice(data);
             let mid = data.len() / 2;
@@ -862,6 +899,9 @@ impl Driver {
                 let chunks = self.chunks(data);
                 let mut rq = req_add_version(c, parent, chunks);
                 self.slow(&mut rq, data);
+                if let Some(ce) = self.content_encoding {
+                    rq.headers.push(("Content-Encoding".into(), ce.as_bytes().to_vec()));
+                }
                 if let Some(p) = &self.ct_params {
                     rq.headers[1].1.extend_from_slice(p.as_bytes());
                 }
@@ -904,6 +944,9 @@ impl Driver {
                 let chunks = self.chunks(data);
                 let mut rq = req_add_snapshot(c, v, chunks);
                 self.slow(&mut rq, data);
+                if let Some(ce) = self.content_encoding {
+                    rq.headers.push(("Content-Encoding".into(), ce.as_bytes().to_vec()));
+                }
                 if let Some(p) = &self.ct_params {
                     rq.headers[1].1.extend_from_slice(p.as_bytes());
                 }
